@@ -297,10 +297,18 @@ def run(ctx) -> list[Inst]:
     # the specification must actually flow into the resolver (no vacuous pass)
     f = prog.func('LanguageGraph._get_attacks_for_asset_type')
     flows = any(SPEC in v for (q, n, i), v in pt.pts.items() if q == f.qname and n in ('step', 'asset'))
-    if not flows:
-        raise AnalysisError('R6: the specification no longer flows into _get_attacks_for_asset_type '
-                            '(source seeds out of date)')
     insts = []
+    if not flows:
+        # the fold was moved into a nested function / works on a per-call index of the specification: the points-to
+        # seeds (locals `step` / `asset` of the method itself) do not see the flow.  Not decided - unless the method does
+        # not touch the specification at all any more, which is a vanished anchor.
+        if not any(isinstance(x, ast.Attribute) and x.attr == '_lang_spec' for x in ast.walk(f.node)):
+            raise AnalysisError('R6: the specification no longer flows into _get_attacks_for_asset_type '
+                                '(source seeds out of date)')
+        insts.append(Inst(RULE, f.short, 'SPECFLOW: the specification reaches the fold through locals the analysis follows',
+                          'unproven', msg='the fold runs in a nested function / over a per-call index: aliasing of the '
+                                          'specification is not followed there', file=f.module.relpath, line=f.node.lineno,
+                          props=('C03', 'C16')))
     for s, objs in spec_sinks(pt):
         rel = s.func.module.relpath
         construct = f'{s.op} on {stmt_text(s.recv, 80)}'
